@@ -339,6 +339,9 @@ func (c *Ctx) applyContract(st *State, fr *Frame, ins ssa.Instruction, ct *Contr
 		}
 		env.pkg = c.typesPkgOf(f)
 		env.fn = f
+		if len(ct.Params) == len(names) && ct.Extern {
+			copy(names, ct.Params)
+		}
 	} else {
 		// interface method or extern function: receiver (if any) then parameters
 		n := sig.Params().Len()
@@ -833,7 +836,13 @@ func (c *Ctx) doGo(st *State, fr *Frame, x *ssa.Go) []cont {
 				}
 				for i, fv := range target.FreeVars {
 					if i < len(bindings) {
-						env.vars[fv.Name()] = specVal{t: c.toTerm(st, bindings[i]), typ: fv.Type()}
+						bt := c.toTerm(st, bindings[i])
+						env.vars["&"+fv.Name()] = specVal{t: bt, typ: fv.Type()}
+						if _, isPtr := fv.Type().Underlying().(*types.Pointer); isPtr {
+							env.vars[fv.Name()] = specVal{t: c.LoadPtr(st, bt, fv.Type(), false), typ: deref(fv.Type())}
+						} else {
+							env.vars[fv.Name()] = specVal{t: bt, typ: fv.Type()}
+						}
 					}
 				}
 				e, err := ParseSpecExpr(tok)
@@ -880,6 +889,9 @@ func (c *Ctx) sendEffects(st *State, fr *Frame, ins ssa.Instruction, ch Term, bl
 	cl := c.Arr(st, famChClosed, ArraySort(SInt, SBool))
 	ln := c.Arr(st, famChLen, ArraySort(SInt, SInt))
 	cp := c.Arr(st, famChCap, ArraySort(SInt, SInt))
+	if blocking {
+		c.Oblige(st, fr, ins, "nonblocking", "send-nil-chan", Not(Eq(ch, IntLit(0))), "blocking send on a nil channel blocks forever")
+	}
 	c.Oblige(st, fr, ins, "nopanic", "send-closed", Not(Select(cl, ch)), "send on closed channel")
 	if blocking && len(st.heldLocks) > 0 {
 		// a blocking send inside a critical section must have room
@@ -1132,6 +1144,24 @@ func (c *Ctx) havocGuardedOf(st *State, obj Term, ptrT types.Type, lockField str
 				// the map object itself is stable only if the field is; keep identity when the field is immutable elsewhere
 			}
 		}
+	}
+	// channels of the object are used by other goroutines too: their fill level and closed
+	// flag are unknown whenever the lock is (re)acquired or released
+	for i := 0; i < sty.NumFields(); i++ {
+		if _, isChan := sty.Field(i).Type().Underlying().(*types.Chan); !isChan {
+			continue
+		}
+		l := &Loc{Kind: LocField, Base: obj, Struct: stT, Field: i, Type: sty.Field(i).Type(), Root: sty.Field(i).Type()}
+		ch := c.LoadLoc(st, l, false)
+		ln := c.Arr(st, famChLen, ArraySort(SInt, SInt))
+		nl := c.FreshConst(st, "chlen", SInt)
+		st.Assume(T(SBool, "(>= %s 0)", nl.S))
+		c.SetArr(st, famChLen, Store(ln, ch, nl))
+		cl := c.Arr(st, famChClosed, ArraySort(SInt, SBool))
+		nc := c.FreshConst(st, "chclosed", SBool)
+		// a closed channel stays closed
+		st.Assume(Implies(Select(cl, ch), nc))
+		c.SetArr(st, famChClosed, Store(cl, ch, nc))
 	}
 }
 
